@@ -106,12 +106,19 @@ class Worker:
         while b"\n" not in self.buf:
             left = deadline - time.time()
             if left <= 0:
-                # watchdog: inconclusive for time; kill and restart
+                # watchdog: inconclusive for time; kill and restart (the CPU time the process has used is
+                # reported: a busy loop shows as CPU time close to the wall time, a starved process does not)
+                cpu = None
+                try:
+                    f = open("/proc/%d/stat" % self.p.pid).read().rsplit(")", 1)[1].split()
+                    cpu = (int(f[11]) + int(f[12])) / float(os.sysconf("SC_CLK_TCK"))
+                except Exception:
+                    pass
                 self.p.kill()
                 self.p.wait()
                 self.restarts += 1
                 self.start()
-                return {"watchdog": True}
+                return {"watchdog": True, "cpu_s": cpu}
             r, _, _ = select.select([fd], [], [], min(left, 1.0))
             if r:
                 chunk = os.read(fd, 1 << 16)
